@@ -316,7 +316,8 @@ def shrinkToSize (cfg : Cfg) (c : Nat) : M α Unit :=
   (if guard_shrinkToSize_1 (genv cfg v) then
       allocate cfg v.alloc v.size >>= fun nb => pure (nb, v.size)
    else pure (v.inl, v.N)) >>= fun (nb, ncap) =>
-  uninitializedMove cfg false v.data 0 v.size nb 0 >>= fun _ =>
+  tryCatch (uninitializedMove cfg true v.data 0 v.size nb 0)
+    (fun e => (if v.N < ncap then deallocate v.alloc nb ncap else pure ()) >>= fun _ => throwE e) >>= fun _ =>
   destroyRange cfg v.data 0 v.size >>= fun _ =>
   deallocate v.alloc v.data v.cap >>= fun _ =>
   setDataPtr c nb >>= fun _ => setCapacity c ncap
